@@ -176,8 +176,11 @@ func (e *Engine) generate() {
 	e.entryState = s.clone()
 	outs := e.runFunc(s, fn, args, binds, "")
 	for _, o := range outs {
-		e.Paths = append(e.Paths, &PathEnd{S: o.s, Results: o.results, Kind: "return"})
+		e.Paths = append(e.Paths, &PathEnd{S: o.s, Results: o.results, Kind: "return", Lines: o.s.Lines[:len(o.s.Lines):len(o.s.Lines)]})
 		e.checkPost(o)
+		if !e.Exclusive {
+			e.checkFrame(o)
+		}
 	}
 }
 
@@ -383,7 +386,11 @@ func (e *Engine) cover(workdir string, timeout time.Duration) bool {
 		wg.Add(1)
 		go func(pe *PathEnd) {
 			defer wg.Done()
-			q := &Query{Lines: pe.S.Lines, Goal: "true"}
+			ls := pe.Lines
+			if ls == nil {
+				ls = pe.S.Lines
+			}
+			q := &Query{Lines: ls, Goal: "true"}
 			ct := timeout
 			if ct > 3*time.Second {
 				ct = 3 * time.Second
@@ -403,4 +410,217 @@ func (e *Engine) cover(workdir string, timeout time.Duration) bool {
 // DumpQuery writes the failing query for the replay/diagnostics file.
 func (e *Engine) DumpQuery(q *Query, path string) error {
 	return os.WriteFile(path, []byte(Prelude+e.assemble(q, true)+"(check-sat)\n(get-model)\n"), 0o644)
+}
+
+// checkFrame: the modifies clause is an obligation of the function itself. For every heap map whose value
+// at this return differs from its value at entry, every location that existed at entry and is not named
+// by a modifies clause must hold its entry value. (Callers rely on exactly this when they keep facts
+// across the call.)
+func (e *Engine) checkFrame(o outcome) {
+	ct := e.Contract
+	if ct == nil || ct.Flag("noframe") || ct.Flag("inline") {
+		return
+	}
+	for _, m := range ct.Modifies {
+		if m == "*" {
+			return
+		}
+	}
+	s := o.s
+	fn := e.Fn
+	fr := o.frame
+	if fr == nil {
+		fr = &Frame{Fn: fn, Vals: map[ssa.Value]*Val{}}
+	}
+	s.Frames = append(s.Frames, fr)
+	defer func() { s.Frames = s.Frames[:len(s.Frames)-1] }()
+	ctx := &SpecCtx{Fn: fn, Params: s.Entry[0].Params, PTypes: s.Entry[0].PTypes, Bound: map[string]*SV{}, OldHeap: s.Entry[0].Heap, Results: o.results, Frame: fr, UseLocals: true, ParamsFirst: true}
+	if ctx.Results == nil {
+		ctx.Results = []*Val{}
+	}
+	res := fn.Signature.Results()
+	for i := 0; i < res.Len(); i++ {
+		ctx.RTypes = append(ctx.RTypes, res.At(i).Type())
+		ctx.RNames = append(ctx.RNames, res.At(i).Name())
+	}
+	excs := e.frameExceptions(s, ctx)
+	var names []string
+	for name := range s.Heap {
+		names = append(names, name)
+	}
+	sort.Strings(names)
+	al0 := "H0!Alloc"
+	var goals []string
+	for _, name := range names {
+		cur := s.Heap[name]
+		old, had := s.Base[name]
+		if !had {
+			old, had = s.Entry[0].Heap[name]
+		}
+		if !had {
+			old = "H0!" + name
+			if !s.Decl[old] {
+				continue // first touched after a havoc that the modifies clause must already cover... handled below
+			}
+		}
+		if cur == old {
+			continue
+		}
+		sortS := e.heapSorts[name]
+		if strings.HasPrefix(name, "CC!") {
+			continue
+		}
+		var objs []string
+		whole := false
+		for _, x := range excs {
+			if strings.HasPrefix(name, x.prefix) {
+				if x.obj == "" {
+					whole = true
+				} else {
+					objs = append(objs, x.obj)
+				}
+			}
+		}
+		if whole {
+			continue
+		}
+		if !strings.HasPrefix(sortS, "(Array Int ") {
+			goals = append(goals, eq(cur, old))
+			continue
+		}
+		conds := []string{app("select", al0, "r!f")}
+		for _, ob := range objs {
+			conds = append(conds, not(eq("r!f", ob)))
+		}
+		goals = append(goals, fmt.Sprintf("(forall ((r!f Int)) (=> %s (= (select %s r!f) (select %s r!f))))", and(conds...), cur, old))
+	}
+	// an epoch bump (unknown callee / modifies * callee) without a covering clause breaks the frame outright
+	if s.Epoch > 0 {
+		goals = append(goals, "false")
+	}
+	if len(goals) == 0 {
+		e.assert(s, e.FnKey+"/frame", "frame", fn.Pos(), "only what the modifies clause names is changed", "true")
+		return
+	}
+	e.assert(s, e.FnKey+"/frame", "frame", fn.Pos(), "only what the modifies clause names is changed", and(goals...))
+}
+
+type frameExc struct {
+	prefix string
+	obj    string
+}
+
+// frameExceptions evaluates the modifies clauses of the contract into (heap prefix, object) pairs.
+func (e *Engine) frameExceptions(s *State, ctx *SpecCtx) []frameExc {
+	ct := e.Contract
+	type exc = frameExc
+	var excs []exc
+	for _, m := range ct.Modifies {
+		switch {
+		case m == "alloc":
+			excs = append(excs, exc{"Alloc", ""})
+		case strings.HasPrefix(m, "heap(") && strings.HasSuffix(m, ")"):
+			excs = append(excs, exc{m[5 : len(m)-1], ""})
+		case strings.HasPrefix(m, "elems(") && strings.HasSuffix(m, ")"):
+			cl, err := parseClause(m[6 : len(m)-1])
+			if err != nil {
+				continue
+			}
+			c2 := *ctx
+			c2.InOld = !strings.Contains(m, "result")
+			func() {
+				defer func() { recover() }()
+				sv := e.eval(s, &c2, cl.Expr)
+				sl := sv.T.Underlying().(*types.Slice)
+				excs = append(excs, exc{"E!" + typeKey(sl.Elem()), sv.V.L[0]})
+			}()
+		case strings.HasPrefix(m, "mapof(") && strings.HasSuffix(m, ")"):
+			cl, err := parseClause(m[6 : len(m)-1])
+			if err != nil {
+				continue
+			}
+			func() {
+				defer func() { recover() }()
+				// the map object named at entry and the one named at exit may both change
+				for _, old := range []bool{true, false} {
+					c2 := *ctx
+					c2.InOld = old
+					sv := e.eval(s, &c2, cl.Expr)
+					mt := sv.T.Underlying().(*types.Map)
+					key := typeKey(mt.Key()) + "!" + typeKey(mt.Elem())
+					for _, p := range []string{"MD!", "MV!", "ML!"} {
+						excs = append(excs, exc{p + key, sv.V.L[0]})
+					}
+				}
+			}()
+		case strings.HasPrefix(m, "ghost(") && strings.HasSuffix(m, ")"):
+			parts := splitTop(m[6:len(m)-1], ',')
+			cl, err := parseClause(parts[1])
+			if err != nil {
+				continue
+			}
+			func() {
+				defer func() { recover() }()
+				c2 := *ctx
+				c2.InOld = !strings.Contains(m, "result")
+				sv := e.eval(s, &c2, cl.Expr)
+				excs = append(excs, exc{"GH!" + strings.TrimSpace(parts[0]), sv.V.L[0]})
+			}()
+		default:
+			i := strings.LastIndex(m, ".")
+			if i < 0 {
+				continue
+			}
+			cl, err := parseClause(m[:i])
+			if err != nil {
+				continue
+			}
+			func() {
+				defer func() { recover() }()
+				c2 := *ctx
+				c2.InOld = true
+				obj := e.eval(s, &c2, cl.Expr)
+				excs = append(excs, exc{e.heapNameField(structKey(deref(obj.T)), m[i:], ""), obj.V.L[0]})
+			}()
+		}
+	}
+	return excs
+}
+
+// frameFormula: every location of the named heap maps that existed in `alloc` and is not excepted holds
+// the value it has in `base`.
+func (e *Engine) frameFormula(s *State, names []string, cur, base map[string]string, alloc string, excs []frameExc) []string {
+	var goals []string
+	for _, name := range names {
+		c, okc := cur[name]
+		b, okb := base[name]
+		if !okc || !okb || c == b || strings.HasPrefix(name, "CC!") || name == "Alloc" {
+			continue
+		}
+		sortS := e.heapSorts[name]
+		var objs []string
+		whole := false
+		for _, x := range excs {
+			if strings.HasPrefix(name, x.prefix) {
+				if x.obj == "" {
+					whole = true
+				} else {
+					objs = append(objs, x.obj)
+				}
+			}
+		}
+		if whole {
+			continue
+		}
+		if !strings.HasPrefix(sortS, "(Array Int ") {
+			goals = append(goals, eq(c, b))
+			continue
+		}
+		conds := []string{app("select", alloc, "r!f")}
+		for _, ob := range objs {
+			conds = append(conds, not(eq("r!f", ob)))
+		}
+		goals = append(goals, fmt.Sprintf("(forall ((r!f Int)) (=> %s (= (select %s r!f) (select %s r!f))))", and(conds...), c, b))
+	}
+	return goals
 }
